@@ -161,7 +161,7 @@ def r05a(ctx):
             infeasible = []
             for c in a.calls():
                 if c in blks and sg(a.term(c).get('fn', '')).endswith('Iterator::next') and a.arg(c, 0) == ivar and a.flow.lty(ivar[1]).startswith('core::ops::range::RangeFrom<'):
-                    infeasible += a.dest_variant_edges(c).get('0', [])
+                    infeasible += a.none_edges(a.dest_variant_edges(c))
             r = a.cfg.reach([head], cut_edges=[e_ for ab in asg for e_ in a.cfg.out_edges(ab)] + latches + infeasible)
             okn = okn and b not in r
         ctx.check(okn, 'R05a', fn, 'ret.count', a.loc(b, si), 'the returned count is the loop position at which matching stopped, assigned on every exit')
